@@ -71,6 +71,9 @@ def cfgs(tier, seed):
         # a full block followed by a shorter last block (number of steps not a multiple of the steps per block)
         out.append(dict(base, sweeper='generic_implicit', qd='LU', prob='dahlquist', n=1, M=[2], NP=2, maxiter=3, jac=False, nsteps=3))
         out.append(dict(base, sweeper='generic_implicit', qd='IE', prob='dahlquist', n=1, M=[2, 1], NP=2, maxiter=2, predict='fine_only', nsteps=3))
+        # runs that do not start at time zero (the steps of the first block must sit at t0 + k dt as well)
+        out.append(dict(base, sweeper='generic_implicit', qd='LU', prob='dahlquist', n=1, M=[2], NP=2, maxiter=3, jac=False, nsteps=3, t0=1.5))
+        out.append(dict(base, sweeper='generic_implicit', qd='IE', prob='dahlquist', n=1, M=[2, 1], NP=3, maxiter=2, t0=-0.75))
         # other node families (the description's node_type must reach the collocation object)
         out.append(dict(base, sweeper='generic_implicit', qd='IE', prob='dahlquist', n=1, M=[3], NP=1, maxiter=6, node_type='EQUID'))
         out.append(dict(base, sweeper='imex_1st_order', qd='IE', prob='dahlquist', n=1, M=[3], NP=2, maxiter=4, node_type='CHEBY-2', quad_type='GAUSS', jac=False))
@@ -132,7 +135,7 @@ def run_task(rep, task):
 def cname(cfg):
     return (f"{cfg['sweeper']}/{cfg['qd']}/{cfg.get('quad_type', 'RADAU-RIGHT')}/{cfg['prob']}{cfg['n']}/M{'-'.join(map(str, cfg['M']))}/NP{cfg['NP']}x{cfg.get('blocks', 1)}/K{cfg['maxiter']}/"
             f"{cfg.get('predict')}/jac{int(cfg.get('jac', True))}/{cfg.get('residual_type', 'full_abs')}/ns{cfg.get('nsweeps', 1)}/f{int(bool(cfg.get('finter')))}/{cfg.get('initial_guess', 'spread')}"
-            + ('/atd' if cfg.get('all_to_done') else '') + ('/cu' if cfg.get('cu') else '') + (f"/etol{cfg['e_tol']}" if cfg.get('e_tol') is not None else '') + ('/exthook' if cfg.get('exthook') else '') + (f"/Q2{cfg['qd2']}" if cfg.get('qd2') else '') + (f"/nsteps{cfg['nsteps']}" if cfg.get('nsteps') else '') + (f"/{cfg['node_type']}" if cfg.get('node_type') else '') + ('/postrun-hook' if cfg.get('postrun') else '') + ('/inexact' if cfg.get('inexact') else '') + (f"/dtinit{cfg['dt_initial']}" if cfg.get('dt_initial') is not None else ''))
+            + ('/atd' if cfg.get('all_to_done') else '') + ('/cu' if cfg.get('cu') else '') + (f"/etol{cfg['e_tol']}" if cfg.get('e_tol') is not None else '') + ('/exthook' if cfg.get('exthook') else '') + (f"/Q2{cfg['qd2']}" if cfg.get('qd2') else '') + (f"/nsteps{cfg['nsteps']}" if cfg.get('nsteps') else '') + (f"/{cfg['node_type']}" if cfg.get('node_type') else '') + ('/postrun-hook' if cfg.get('postrun') else '') + ('/inexact' if cfg.get('inexact') else '') + (f"/dtinit{cfg['dt_initial']}" if cfg.get('dt_initial') is not None else '') + (f"/t0={cfg['t0']:g}" if cfg.get('t0') else ''))
 
 
 def coll_constant(Q, A, dt, weights=None):
@@ -161,7 +164,7 @@ def run_case(rep, cfg):
         from pySDC.core.errors import CommunicationError, ControllerError, UnlockError
 
         try:
-            ctl, A, uend, stats, _ = wr.run_symbolic(c, cfg, xs)
+            ctl, A, uend, stats, _ = wr.run_symbolic(c, cfg, xs, t0=float(cfg.get('t0', 0.0)))
         except (CommunicationError, ControllerError, UnlockError) as e:
             return dict(exc=f'{type(e).__name__}: {e}')
         L = ctl.MS[0].levels[0]
@@ -219,6 +222,9 @@ def run_case(rep, cfg):
         Afr = sp.tofrac_matrix(A)
         prev_end = xs
         for sidx, s in enumerate(r['posts']):
+            # the step solved the problem of ITS interval: the k-th accepted step of a fixed-step run covers [t0 + k dt, t0 + (k + 1) dt] (dyadic values: exact)
+            rep.side(f'{name}/path{i}/step{sidx}:interval-of-the-step', float(s['time']) == float(cfg.get('t0', 0.0)) + sidx * cfg['dt'] and float(s['dt']) == cfg['dt'],
+                     {'step': sidx, 'time': float(s['time']), 'dt': float(s['dt']), 'expected_start': float(cfg.get('t0', 0.0)) + sidx * cfg['dt']})
             # chaining: the step started from exactly the previous step's end value
             res, m = prove(z3.And([a == b for a, b in zip(s['u'][0], prev_end)]), A_, timeout_ms=120000, name=f'{name}/path{i}/step{sidx}:starts-from-previous-end')
             rep.ob(f'{name}/path{i}/step{sidx}:starts-from-previous-end', res)
@@ -275,7 +281,8 @@ def float_reference(cfg, x):
     u0 = P.dtype_u(P.init)
     u0[:] = x
     wr.LOG.clear()
-    uend, stats = ctl.run(u0, 0.0, cfg['dt'] * cfg.get('nsteps', cfg['NP'] * cfg.get('blocks', 1)))
+    T0 = float(cfg.get('t0', 0.0))
+    uend, stats = ctl.run(u0, T0, T0 + cfg['dt'] * cfg.get('nsteps', cfg['NP'] * cfg.get('blocks', 1)))
     L = ctl.MS[0].levels[0]
     Q = L.sweep.coll.Qmat
     M = Q.shape[0] - 1
